@@ -10,43 +10,54 @@ import p_meta
 import p_role
 from names import *
 
-USPACE = {"libfs::common::copy_bytes_uspace", "libfs::common::copy_range_uspace"}
+def _uspace(r):
+    """A user-space copy is reachable: a read primitive and a write primitive (whatever helper functions hold them)."""
+    return any(x in r for x in (READ, PREAD)) and any(x in r for x in (WRITE, WRITE_ALL, PWRITE))
 
 
 def copiers_wired(fx):
-    """C01(c): from each driver's Copy arm the kernel copier, a user-space copier and the clone call are reachable."""
+    """C01(c): from each worker role's Copy arm the kernel copier, a user-space copier, the clone call, the
+    truncating open and the pre-sizing are reachable."""
+    import views
     obs = []
-    cg = q.callgraph(fx)
-    for w in (PF_WORKER, PB_DISPATCH):
-        f, regs = p_kinds.op_regions(fx, w)
-        if f is None or "Copy" not in regs:
-            obs.append(anchor_ob("R-WHO", "%s Copy arm" % w))
+    W = views.workers(fx)
+    if len(W) < 2:
+        obs.append(anchor_ob("R-WHO", "two worker roles dispatching on Operation (found %d)" % len(W)))
+    for lab, f in W:
+        fv, regs = p_kinds.op_regions(fx, f)
+        if "Copy" not in regs:
+            obs.append(anchor_ob("R-WHO", "%s Copy arm" % lab))
             continue
-        r = cg.reach(f.path, blocks=regs["Copy"])
-        for what, names_ in (("kernel copy_file_range", {COPY_FILE_RANGE}), ("user-space copier", USPACE),
-                             ("clone request", {"libfs::linux::reflink"}), ("truncating open + sizing", {NEW}),
+        r = q.view_reach(fx, f, regs["Copy"])
+        clone = set(p_kinds.clone_api(fx)) or {"libfs::linux::reflink"}
+        for what, names_ in (("kernel copy_file_range", {COPY_FILE_RANGE}), ("user-space copier", None),
+                             ("clone request", clone), ("truncating open", {FILE_CREATE}),
                              ("pre-sizing ftruncate", {FTRUNCATE})):
-            ok = any(n in r for n in names_)
-            obs.append(Ob("R-WHO", mkkey("R-WHO", w, "Copy-arm reaches", 0, what), ok, f.loc(), w,
-                          "%s Copy arm reaches the %s: %s" % (w.split("::")[-1], what, ok)))
+            ok = _uspace(r) if names_ is None else any(n in r for n in names_)
+            obs.append(Ob("R-WHO", mkkey("R-WHO", lab, "Copy-arm reaches", 0, what), ok, f.loc(), lab,
+                          "%s Copy arm reaches the %s: %s" % (lab, what, ok)))
     return obs
 
 
 def fallback_consumers(fx, cfgname="A"):
-    """C05: every caller of try_copy_file_range runs a user-space copier when it answers None (unsupported)."""
+    """C05: every exported libfs function that may issue copy_file_range can also copy in user space (the kernel
+    call may be unavailable); that the fallback is *taken* on ENOSYS/EPERM/EXDEV is R-ERR's tolerated-code rule."""
     obs = []
-    T = "libfs::linux::try_copy_file_range"
     cg = q.callgraph(fx)
-    callers = sorted(cg.callers.get(T, ()))
-    if cfgname == "A" and len(callers) < 2:
-        obs.append(anchor_ob("R-WHO", "callers of try_copy_file_range (found %d)" % len(callers), cfg=cfgname))
-    for c in callers:
-        r = cg.reach(c)
-        ok = any(u in r for u in USPACE)
-        f = fx.fn(c)
-        obs.append(Ob("R-WHO", mkkey("R-WHO", c, T, 0, "fallback"), ok, f.loc() if f else "", c,
-                      "%s falls back to a user-space copier when the kernel copy is unsupported: %s" % (c.split("::")[-1], ok),
+    n = 0
+    for g in ro.fns_in_scope(fx, crates=("libfs",)):
+        if g.is_closure or not (g.raw.get("exported") or g.raw.get("reachable")):
+            continue
+        r = cg.reach(g.path)
+        if COPY_FILE_RANGE not in r:
+            continue
+        n += 1
+        ok = _uspace(r)
+        obs.append(Ob("R-WHO", mkkey("R-WHO", g.path, COPY_FILE_RANGE, 0, "fallback"), ok, g.loc(), g.path,
+                      "%s can fall back to a user-space copier when the kernel copy is unsupported: %s" % (g.path.split("::")[-1], ok),
                       cfg=cfgname))
+    if cfgname == "A" and n < 2:
+        obs.append(anchor_ob("R-WHO", "exported libfs functions using copy_file_range (found %d)" % n, cfg=cfgname))
     return obs
 
 
